@@ -117,30 +117,84 @@ def interpreted_trace(repo: Repo, oe, data: bytes):
 # ------------------------------------------------------------------------------------------------------------------------
 # evaluator for decompiled programs
 # ------------------------------------------------------------------------------------------------------------------------
-ALLOWED_MODULES = {"collections", "fractions", "datetime", "builtins", "__builtin__", "copyreg", "copy_reg", "_codecs", "decimal"}
-
-
 class ProgramError(Exception):
     pass
 
 
-def _import(module: str, name: str):
-    import importlib
+# Both sides of the comparison run "in an environment where imported names are inert stand-ins" (the property's words): every
+# global, whatever its module, is a stand-in class whose instances record how they were made and what was applied to them.
+_STANDINS: Dict[Tuple[str, str], type] = {}
 
-    import _compat_pickle
 
-    if (module, name) in _compat_pickle.NAME_MAPPING:
-        module, name = _compat_pickle.NAME_MAPPING[(module, name)]
-    elif module in _compat_pickle.IMPORT_MAPPING:
-        module = _compat_pickle.IMPORT_MAPPING[module]
-    if module in ("__builtin__", "__builtins__"):
+class _StandIn:
+    _key = ("?", "?")
+
+    def __new__(cls, *a, **k):
+        o = object.__new__(cls)
+        o._log = [("call", a, tuple(sorted(k.items(), key=lambda kv: kv[0])))]
+        return o
+
+    def __init__(self, *a, **k):
+        pass
+
+    def __setstate__(self, state):
+        self._log.append(("setstate", state))
+
+    def append(self, x):
+        self._log.append(("append", x))
+
+    def extend(self, xs):
+        for x in xs:
+            self._log.append(("append", x))
+
+    def __setitem__(self, k, v):
+        self._log.append(("setitem", k, v))
+
+    def update(self, d):
+        for k, v in (d.items() if hasattr(d, "items") else d):
+            self._log.append(("setitem", k, v))
+
+    def add(self, x):
+        self._log.append(("add", x))
+
+    def __call__(self, *a, **k):
+        return standin(self._key[0], self._key[1] + "(...)")(*a, **k)
+
+    def __eq__(self, other):
+        return type(self) is type(other) and self._log == other._log
+
+    def __hash__(self):
+        return hash(self._key)
+
+    def __repr__(self):
+        return f"<{self._key[0]}.{self._key[1]} {self._log!r}>"[:120]
+
+
+def standin(module: str, name: str) -> type:
+    if module in BUILTIN_ALIASES:
         module = "builtins"
-    if module not in ALLOWED_MODULES:
-        raise ProgramError(f"import from {module} (outside the corpus' vocabulary)")
-    obj = importlib.import_module(module)
-    for part in name.split("."):
-        obj = getattr(obj, part)
-    return obj
+    key = (module, name)
+    if key not in _STANDINS:
+        _STANDINS[key] = type("StandIn_" + name.replace(".", "_").replace("(", "").replace(")", ""), (_StandIn,), {"_key": key})
+    return _STANDINS[key]
+
+
+class _StandInUnpickler(pickle.Unpickler):
+    """CPython's own unpickler with every global replaced by its stand-in (find_class is the documented hook)."""
+
+    def find_class(self, module, name):
+        return standin(module, name)
+
+    def persistent_load(self, pid):
+        return standin("UNPICKLER", "persistent_load")(pid)
+
+
+def reference_value(data: bytes):
+    return _StandInUnpickler(io.BytesIO(data)).load()
+
+
+def _import(module: str, name: str):
+    return standin(module, name)
 
 
 def _build(obj, state):
@@ -170,13 +224,8 @@ def eval_program(mod: ast.Module):
         if isinstance(e, ast.Name):
             if e.id in env:
                 return env[e.id]
-            name = e.id
-            import _compat_pickle
-
-            # a bare name is a builtin resolved without an import; Python-2 spellings are mapped as the unpickler maps them
-            name = _compat_pickle.NAME_MAPPING.get(("__builtin__", name), ("builtins", name))[1]
-            if hasattr(builtins, name) and name in ("set", "frozenset", "list", "dict", "tuple", "bytearray", "complex", "range", "slice", "object", "int", "float", "str", "bytes", "bool", "len", "getattr"):
-                return getattr(builtins, name)
+            if hasattr(builtins, e.id) or e.id in ("xrange", "unicode", "long", "basestring", "unichr", "reduce", "intern", "raw_input", "execfile", "file", "cmp", "apply", "buffer", "coerce"):
+                return standin("builtins", e.id)  # a bare name is a builtin the VM resolved without an import being emitted
             raise NameError(f"name '{e.id}' is not defined in the decompiled program")
         if isinstance(e, (ast.List, ast.Tuple, ast.Set)):
             vals = []
@@ -309,7 +358,7 @@ def run_world(repo: Repo, oe, label: str, data: bytes, value_check: bool) -> Lis
     # fickling represents it by a cyclic tree, which is outside what a program evaluator can be asked)
     if value_check and not cyclic:
         try:
-            expected = pickle.loads(data)
+            expected = reference_value(data)
         except Exception:
             return devs
         try:
